@@ -88,4 +88,9 @@ MUTANTS = [
     ("method_change_keeps_old_solver_options", "rockit/direct_method.py", "        if template and template._solver_options is not None:\n            self._solver_options = template._solver_options", "        if template and template._solver_options is not None:\n            self._solver_options = dict(template._solver_options, **{'ipopt.max_iter': 1}) if 'ipopt.max_iter' in template._solver_options else template._solver_options", ["C13"]),
     ("set_initial_after_transcription_not_stored", ST, "            self._initial[var] = value\n            if priority:", "            if not (self.master is not None and self.master.is_transcribed): self._initial[var] = value\n            if priority and var in self._initial:", ["C13"]),
     ("transcription_adds_constraint_to_user_ocp", "rockit/ocp.py", "                augmented = copy.deepcopy(self)\n", "                augmented = copy.deepcopy(self)\n                if len(self.states)>1: self._constraints['point'] = list(self._constraints['point'])+list(self._constraints['point'][:1])\n", ["C13"]),
+    # --- C15
+    ("bernstein_matrix_row", SM, "[1, 3.0/4, 1.0/2, 1.0/4, 0]", "[1, 3.0/4, 1.0/2, 1.0/8, 0]", ["C15"]),
+    ("inf_der_scaled_by_control_interval", SM, "        dt = (self.control_grid[k + 1] - self.control_grid[k])/self.M\n        subst_to += [lookup[e].derivative()*(1/dt) for e in stage._inf_der.values()]", "        dt = (self.control_grid[k + 1] - self.control_grid[k])\n        subst_to += [lookup[e].derivative()*(1/dt) for e in stage._inf_der.values()]", ["C15"]),
+    ("inf_uses_first_step_polynomial", SM, "        coeff = stage._method.poly_coeff[k * self.M + l]\n", "        coeff = stage._method.poly_coeff[k * self.M]\n", ["C15"]),
+    ("inf_skips_last_substep", MS, "                for c, meta, _ in stage._constraints[\"inf\"]:\n                    self.add_inf_constraints(stage, opti, c, k, l, meta)", "                for c, meta, _ in stage._constraints[\"inf\"]:\n                    if l<2: self.add_inf_constraints(stage, opti, c, k, l, meta)", ["C15"]),
 ]
